@@ -146,6 +146,64 @@ static void run_case(const std::string& cid, Toks& t) {
         emit0(cid, "PSEQ", seq);
         emit_all(cid, "PDIM", dims);
         emit_all(cid, "PPAR", par);
+    } else if (op == "seqinterp") {
+        // sequential routines on an explicit matrix/strength/splitting: cid seqinterp kind nv n vars[n] states[n] nnzA (i j v)* nnzS (i j v)*
+        std::string kind = t.next(); int nv = t.next_int(); int n = t.next_int();
+        std::vector<int> vars = t.ints(n); std::vector<int> states = t.ints(n);
+        CSRMatrix* M[2];
+        for (int w = 0; w < 2; w++) {
+            int nnz = t.next_int(); std::vector<int> r(nnz), c(nnz); std::vector<double> v(nnz);
+            for (int k = 0; k < nnz; k++) { r[k] = t.next_int(); c[k] = t.next_int(); v[k] = t.next_num(); }
+            COOMatrix* C = new COOMatrix(n, n, r, c, v); M[w] = C->to_CSR(); delete C;
+        }
+        if (g_rank == 0) {
+            CSRMatrix* P;
+            if (kind == "direct") P = direct_interpolation(M[0], M[1], states);
+            else if (kind == "modcls") P = mod_classical_interpolation(M[0], M[1], states, nv, nv > 1 ? vars.data() : NULL);
+            else P = extended_interpolation(M[0], M[1], states, nv, nv > 1 ? vars.data() : NULL);
+            emit0(cid, "PSEQ", std::to_string(P->n_rows) + " " + std::to_string(P->n_cols) + " " + csr_rows_str(P));
+            delete P;
+        }
+        delete M[0]; delete M[1];
+    } else if (op == "level1") {
+        // the library's own setup of level 1 (Ac = (A P)^T P from strength/splitting/direct interpolation on level 0),
+        // then strength + splitting + the requested interpolation on Ac; everything printed with Ac's global ids
+        // cid level1 kind tap ppn theta0 coarsen0 theta1 coarsen1 ParLit
+        std::string kind = t.next(); int tap = t.next_int(); int ppn = t.next_int();
+        double th0 = t.next_num(); std::string co0 = t.next(); double th1 = t.next_num(); std::string co1 = t.next();
+        ParLit L; L.parse(t);
+        if (!L.usable()) return;
+        char buf[16]; snprintf(buf, sizeof buf, "%d", ppn); setenv("PPN", buf, 1);
+        ParCSRMatrix* A0 = L.csr();
+        if (tap) A0->init_tap_communicators();
+        std::vector<double> w(L.nr + 1); for (int i = 0; i < L.nr; i++) w[i] = ((i * 7919 + 13) % 1009) / 1009.0;
+        ParCSRMatrix* S0 = A0->strength(Classical, th0, tap != 0);
+        std::vector<int> st0, off0;
+        double* w0 = w.data() + A0->partition->first_local_row;
+        if (co0 == "rs") split_rs(S0, st0, off0, tap != 0); else split_pmis(S0, st0, off0, tap != 0, w0);
+        ParCSRMatrix* P0 = direct_interpolation(A0, S0, st0, off0, tap != 0);
+        ParCSRMatrix* AP = A0->mult(P0, tap != 0);
+        ParCSRMatrix* Ac = AP->mult_T(P0, tap != 0);
+        Ac->sort(); Ac->on_proc->move_diag();
+        Ac->comm = new ParComm(Ac->partition, Ac->off_proc_column_map, Ac->on_proc_column_map, A0->comm->key, A0->comm->mpi_comm);
+        if (tap) Ac->init_tap_communicators(MPI_COMM_WORLD);
+        ParCSRMatrix* S1 = Ac->strength(Classical, th1, tap != 0);
+        std::vector<int> st1, off1;
+        std::vector<double> w1(Ac->local_num_rows + 1);
+        for (int i = 0; i < Ac->local_num_rows; i++) w1[i] = ((Ac->local_row_map[i] * 7919 + 13) % 1009) / 1009.0;
+        if (co1 == "rs") split_rs(S1, st1, off1, tap != 0); else split_pmis(S1, st1, off1, tap != 0, w1.data());
+        ParCSRMatrix* P1;
+        if (kind == "direct") P1 = direct_interpolation(Ac, S1, st1, off1, tap != 0);
+        else if (kind == "modcls") P1 = mod_classical_interpolation(Ac, S1, st1, off1, tap != 0, 1, NULL);
+        else P1 = extended_interpolation(Ac, S1, st1, off1, 0.0, tap != 0, 1, NULL);
+        std::ostringstream ids, sts;
+        for (int i = 0; i < Ac->local_num_rows; i++) { ids << (i ? " " : "") << Ac->local_row_map[i]; sts << (i ? " " : "") << st1[i]; }
+        std::string sa = par_rows_str(Ac), ss = par_rows_str(S1), sp = par_rows_str(P1);
+        std::string dims = std::to_string(Ac->partition->first_local_row) + " " + std::to_string(Ac->partition->first_local_col) + " " +
+                           std::to_string(Ac->local_num_rows) + " " + std::to_string(Ac->on_proc_num_cols);
+        delete P1; delete S1; delete Ac; delete AP; delete P0; delete S0; delete A0;
+        emit_all(cid, "IDS", ids.str()); emit_all(cid, "ST1", sts.str());
+        emit_all(cid, "AC", sa); emit_all(cid, "S1", ss); emit_all(cid, "PART", dims); emit_all(cid, "PPAR", sp);
     } else throw std::runtime_error("unknown op " + op);
 }
 
